@@ -454,10 +454,10 @@ class Duo:
 # operation is repeated once more on the shared (now warm) objects.
 
 SHARED_KINDS = {
-    'C01': ['tx', 'block', 'header'],
-    'C02': ['tx', 'block', 'header'],
+    'C01': ['tx', 'block', 'header', 'mtx'],
+    'C02': ['tx', 'block', 'header', 'mtx'],
     'C05': ['spend', 'key'],
-    'C09': ['tx', 'frozen'],
+    'C09': ['tx', 'frozen', 'mtx'],
     'C10': ['b58obj'],
     'C11': ['bech32obj'],
     'C13': ['pub', 'key'],
@@ -493,6 +493,11 @@ def build_pool(cfg):
         it = {'k': k}
         if k in ('tx', 'frozen'):
             it['spec'] = gen.gen_tx(rng, 3, 3)
+        elif k == 'mtx':
+            # a MUTABLE transaction that nobody assigns to: both threads only read it
+            it['spec'] = gen.gen_tx(rng, 3, 3)
+            if rng.random() < 0.7:
+                it['spec']['wit'] = [[gen.rhex(rng, rng.randint(1, 20))] for _ in it['spec']['vin']]
         elif k == 'block':
             b = _valid_block(rng) if rng.random() < 0.7 else gen.gen_block(rng, 3)
             while not b['txs']:
@@ -520,6 +525,7 @@ def build_pool(cfg):
 SHARED_OPS = {
     'tx': ['ser', 'txid', 'wtxid', 'hash', 'eq', 'stripped', 'repr'],
     'frozen': ['ser', 'txid', 'wtxid', 'hash', 'eq', 'thaw'],
+    'mtx': ['ser', 'txid', 'wtxid', 'eq', 'stripped', 'haswit', 'freeze', 'txid', 'wtxid'],
     'block': ['ser', 'hash', 'merkle', 'weight', 'check', 'txids', 'header'],
     'header': ['ser', 'hash', 'eq'],
     'key': ['sign', 'sign_compact', 'pub'],
@@ -544,6 +550,8 @@ def make_item(it):
         return conv.tx_from_spec(it['spec'], False)
     if k == 'frozen':
         return C.CTransaction.from_tx(conv.tx_from_spec(it['spec'], True))
+    if k == 'mtx':
+        return conv.tx_from_spec(it['spec'], True)
     if k == 'block':
         return conv.block_from_spec(it['spec'])
     if k == 'header':
@@ -589,7 +597,13 @@ def apply_op(obj, it, op, salt):
     import bitcoin.core.script as S
     import bitcoin.core.scripteval as SE
     k = it['k']
-    if k in ('tx', 'frozen'):
+    if k in ('tx', 'frozen', 'mtx'):
+        mut = k == 'mtx'
+        if op == 'haswit':
+            return obj.has_witness()
+        if op == 'freeze':
+            snap = C.CTransaction.from_tx(obj)
+            return (snap.serialize().hex(), snap.GetTxid().hex(), snap.GetHash().hex())
         if op == 'ser':
             return obj.serialize().hex()
         if op == 'txid':
@@ -599,7 +613,7 @@ def apply_op(obj, it, op, salt):
         if op == 'hash':
             return hash(obj) == hash(conv.tx_from_spec(it['spec'], False))
         if op == 'eq':
-            return obj == conv.tx_from_spec(it['spec'], False)
+            return obj == conv.tx_from_spec(it['spec'], mut)
         if op == 'stripped':
             return obj.serialize(dict(include_witness=False)).hex()
         if op == 'repr':
